@@ -2661,7 +2661,7 @@ func (pp *plProt) settle(t *testing.T, before int64) {
 		}
 	}
 	if pp.ps.modified.Load() != before {
-		pp.step(vfApp("PrOp", "PWake", "true"), "the pause has run out: enableProtectionAfterPause")
+		pp.step(vfApp("PrOp", vfApp("PWake", vfZ(pp.vnow)), "true"), "enableProtectionAfterPause gets the lock")
 		pp.classes["prot-lazy-reenable-goroutine"] = true
 		pp.raw()
 	}
@@ -2751,7 +2751,30 @@ func (pp *plProt) advance(hours int64) {
 }
 
 // status: GET /control/dns_info, "protection_enabled" as reported.
-func (pp *plProt) status(t *testing.T) {
+func (pp *plProt) status(t *testing.T) { pp.statusThen(t, true) }
+
+// lateSwitch: a switch that lands in the start-up window of
+// enableProtectionAfterPause.  A pause has run out and nobody has read the
+// state since; a status read starts the goroutine; with a single P the new
+// goroutine cannot run before this one yields, so the handler call that
+// follows is carried out first; then the goroutine gets the lock.  Whether
+// the interleaving was forced is read from the order of the ConfigModified
+// calls (the handler's came first), not from timing; if it was not, the
+// history is the ordinary one and still valid.
+func (pp *plProt) lateSwitch(t *testing.T, enabled bool, durMS int64) {
+	t.Helper()
+	defer runtime.GOMAXPROCS(runtime.GOMAXPROCS(1))
+	before := pp.ps.modified.Load()
+	pp.statusThen(t, false)
+	pp.set(t, enabled, durMS, true)
+	if pp.ps.modified.Load() == before+1 && pp.ps.s.protectionUpdateInProgress.Load() {
+		pp.classes["prot-switch-in-wakeup-window"] = true
+		pp.desc = append(pp.desc, "(the goroutine started by that read has not had the lock yet)")
+	}
+	pp.settle(t, before+1)
+}
+
+func (pp *plProt) statusThen(t *testing.T, settle bool) {
 	t.Helper()
 	before := pp.ps.modified.Load()
 	code, text := plCall(pp.ps.s.handleGetConfig, http.MethodGet, "")
@@ -2770,7 +2793,9 @@ func (pp *plProt) status(t *testing.T) {
 		pp.bad = fmt.Sprintf("at %+dh GET /control/dns_info reports protection_enabled=%v, but by the last accepted switch (%s) protection is %s",
 			pp.vnow/plHourMS, resp.Enabled, pp.switchDesc(), map[bool]string{true: "in force", false: "not in force"}[want])
 	}
-	pp.settle(t, before)
+	if settle {
+		pp.settle(t, before)
+	}
 }
 
 func (pp *plProt) switchDesc() string {
@@ -2882,6 +2907,19 @@ func plRunProt(t *testing.T, out *vfOut, r *vfRand, ps *plServer, steps int, gen
 	pp.raw()
 	for k := 0; k < steps; k++ {
 		paused := pp.swKind == 2 && pp.vnow < pp.swUntil
+		if _, until := ps.s.dnsFilter.ProtectionStatus(); until != nil && pp.swKind == 2 && pp.vnow >= pp.swUntil && r.Chance(1, 3) {
+			// the pause has run out and nobody has read the state since: a
+			// switch in the start-up window of the goroutine
+			switch r.Intn(3) {
+			case 0:
+				pp.lateSwitch(t, false, 0)
+			case 1:
+				pp.lateSwitch(t, false, int64(1+r.Intn(2))*plHourMS)
+			default:
+				pp.lateSwitch(t, true, 0)
+			}
+			continue
+		}
 		switch x := r.Intn(20); {
 		case x < 3:
 			pp.set(t, false, int64(1+r.Intn(3))*plHourMS, false)
@@ -2903,11 +2941,6 @@ func plRunProt(t *testing.T, out *vfOut, r *vfRand, ps *plServer, steps int, gen
 		}
 	}
 	pp.ask(t, genQ(), emit)
-	for k, v := range pp.classes {
-		if v {
-			out.Class(k)
-		}
-	}
 	out.Emit(pp.historyCase())
 }
 
@@ -2922,11 +2955,6 @@ func plProtPrelude(t *testing.T, out *vfOut, mkServer func(protOn bool, deadline
 		pp := plStartProt(ps)
 		pp.raw()
 		script(pp, func(extra ...string) { pp.ask(t, blockedQ(), emit, extra...) })
-		for k, v := range pp.classes {
-			if v {
-				out.Class(k)
-			}
-		}
 		out.Emit(pp.historyCase())
 	}
 	// on -> paused for an hour -> switched on again before the hour is up
@@ -2990,6 +3018,28 @@ func plProtPrelude(t *testing.T, out *vfOut, mkServer func(protOn bool, deadline
 		ask("prelude-prot-dns-config-off-during-pause")
 		pp.conf(t, true)
 		ask("prelude-prot-dns-config-on")
+	})
+	// a switch in the start-up window of enableProtectionAfterPause: off, and a
+	// new pause; the goroutine must not undo either
+	run(true, 0, func(pp *plProt, ask func(extra ...string)) {
+		pp.set(t, false, plHourMS, false)
+		pp.advance(1)
+		pp.lateSwitch(t, false, 0)
+		pp.status(t)
+		ask("prelude-prot-off-in-wakeup-window")
+		pp.set(t, false, plHourMS, false)
+		pp.advance(2)
+		pp.lateSwitch(t, false, 2*plHourMS)
+		pp.status(t)
+		ask("prelude-prot-new-pause-in-wakeup-window")
+		pp.advance(1)
+		ask("prelude-prot-new-pause-in-wakeup-window")
+		pp.advance(1)
+		ask("prelude-prot-new-pause-ran-out")
+		pp.set(t, false, plHourMS, false)
+		pp.advance(1)
+		pp.lateSwitch(t, true, 0)
+		ask("prelude-prot-on-in-wakeup-window")
 	})
 	// servers started inside a pause and after one
 	run(false, 1, func(pp *plProt, ask func(extra ...string)) {
